@@ -291,6 +291,11 @@ func runC14(o *opts) {
 		if o.tier == "thorough" {
 			ncli = 60
 		}
+		type fileData struct {
+			path string
+			data []byte
+		}
+		var plain []fileData
 		for i := 0; i < ncli; i++ {
 			n := append(append([]int{}, lens14small...), lens14mid...)[r.intn(len(lens14small)+len(lens14mid))]
 			if i == 0 {
@@ -341,6 +346,7 @@ func runC14(o *opts) {
 				args = append(args, fifo)
 			default:
 				args = append(args, p)
+				plain = append(plain, fileData{p, data})
 			}
 			cmd.Args = append([]string{o.dud}, args...)
 			outb, err := cmd.Output()
@@ -357,6 +363,46 @@ func runC14(o *opts) {
 				}
 			}
 			add(c)
+		}
+		// several files in ONE invocation: every line "<digest>  <path>" is that file's digest
+		for i := len(plain); i < 10; i++ {
+			n := append(append([]int{}, lens14small...), lens14mid...)[r.intn(len(lens14small)+len(lens14mid))]
+			data := r.bytes(n)
+			p := filepath.Join(tmp, fmt.Sprintf("m%d", i))
+			must(os.WriteFile(p, data, 0o644))
+			plain = append(plain, fileData{p, data})
+		}
+		for k := 0; k+1 < len(plain) && k < 12; k += 3 {
+			group := plain[k:]
+			if len(group) > 2+(k/3)%3 {
+				group = group[:2+(k/3)%3]
+			}
+			args := []string{"checksum"}
+			if (k/3)%2 == 1 {
+				args = append(args, "-b", "4096")
+			}
+			for _, g := range group {
+				args = append(args, g.path)
+			}
+			outb, err := exec.Command(o.dud, args...).Output()
+			got := map[string]string{}
+			if err == nil {
+				for _, l := range strings.Split(string(outb), "\n") {
+					for _, g := range group {
+						if strings.HasSuffix(l, "  "+g.path) {
+							got[g.path] = strings.TrimSpace(strings.TrimSuffix(l, g.path))
+						}
+					}
+				}
+			}
+			for _, g := range group {
+				c := &case14{evs: []ev14{{g.data, 1}}, data: g.data, kind: fmt.Sprintf("cli-%d-files", len(group))}
+				if d, ok := got[g.path]; ok {
+					d := d
+					c.res = &d
+				}
+				add(c)
+			}
 		}
 		os.RemoveAll(tmp)
 	}
